@@ -2446,6 +2446,18 @@ def _get_default_tags() -> frozenset[Tag]:
     return frozenset()
 
 
+def _check_contraction_lengths(what: str, x1: Array, x2: Array) -> None:
+    # The contracted axes (last of *x1*, second-to-last of *x2*, or its only
+    # one) must have the same length: unlike einsum, NumPy's matmul/dot do not
+    # stretch a contracted axis of length 1.
+    from pytato.utils import are_shape_components_equal
+    len1 = x1.shape[-1]
+    len2 = x2.shape[-2] if x2.ndim >= 2 else x2.shape[0]
+    if not are_shape_components_equal(len1, len2):
+        raise ValueError(f"{what}: shapes {x1.shape} and {x2.shape} not aligned: "
+                         f"{len1} != {len2}")
+
+
 def matmul(x1: Array, x2: Array) -> Array:
     """Matrix multiplication.
 
@@ -2460,6 +2472,8 @@ def matmul(x1: Array, x2: Array) -> Array:
         raise ValueError("scalars not allowed as arguments to matmul")
 
     import pytato as pt
+
+    _check_contraction_lengths("matmul", x1, x2)
 
     index_names = "".join([chr(i) for i in range(ord("l"), ord("z")+1)])
 
@@ -3425,6 +3439,9 @@ def dot(a: ArrayOrScalar, b: ArrayOrScalar) -> ArrayOrScalar:
     assert isinstance(a, Array)
     assert isinstance(b, Array)
 
+    if a.ndim >= 1 and b.ndim >= 1:
+        _check_contraction_lengths("dot", a, b)
+
     if a.ndim == b.ndim == 1:
         return pt.sum(a*b)
     elif a.ndim == b.ndim == 2:
@@ -3456,6 +3473,13 @@ def vdot(a: Array, b: Array) -> ArrayOrScalar:
         a = a.reshape(-1)
     if isinstance(b, Array) and b.ndim > 1:
         b = b.reshape(-1)
+
+    if isinstance(a, Array) and isinstance(b, Array) and a.ndim != b.ndim:
+        # one 0-dimensional, one 1-dimensional operand: as for numpy.vdot, the
+        # two must have the same number of entries
+        from pytato.utils import are_shape_components_equal
+        if not are_shape_components_equal((a if a.ndim else b).shape[0], 1):
+            raise ValueError("vdot: operands must have the same size")
 
     return pt.dot(pt.conj(a), b)
 
